@@ -292,9 +292,9 @@ pub fn do_send<ES: evenio::event::EventSet>(s: &Sender<'static, ES>, req: &Req) 
                 a.set(v + 1);
                 v
             });
-            // odd lengths go through `alloc_str` (ASCII pattern), even ones through `alloc_slice`
+            // odd lengths go through `alloc_str` (every other one with multi-byte characters), even ones through `alloc_slice`
             let data: &'static [u8] = if len % 2 == 1 {
-                let text: String = (0..len).map(|i| arena_byte(no, i) as char).collect();
+                let text: String = arena_text(no, len);
                 let st: &'static mut str = s.alloc_str(&text);
                 unsafe { &*(st.as_bytes() as *const [u8]) }
             } else {
